@@ -803,8 +803,37 @@ def replay(ctx, obj):
         print("REPLAY: no violation on this input")
 
 
-READY = False
-LEVEL_TEXT = ""
-LEVEL_NOTE = ""
+READY = True
+LEVEL_TEXT = ("Theorems (Coq, over Z and lists, no axioms): days_from_civil / civil_from_days are mutually inverse on ALL day numbers "
+              "and ALL valid proleptic-Gregorian dates (two 400-year era tables decided by vm_compute, lifted to every era by "
+              "arithmetic; 1970-01-01..2100-12-31 are day numbers 0..47846); calendar fields <-> microsecond instant round trip; "
+              "to_datetime_utc returns a valid, aware, UTC datetime denoting the same instant for every scalar representation "
+              "(aware datetime with ANY offset, naive datetime read as UTC with its fields kept, ISO-8601 strings parsed character "
+              "by character with separator T/space, with/without fraction, zone none/Z/+-HH:MM, int and float epoch seconds "
+              "(nearest microsecond), datetime64 to whole seconds), for sequences of any nesting/mixture by induction, None -> None, "
+              "independently of the process time zone; to_datetime64 then back gives the instant floored to the second; "
+              "datetime_to_iso_time_string then parsing gives back the instant to the microsecond; the packed-integer decoders "
+              "time_from_timeint / date_from_dateint / datetime_from_time_and_date_integers -- TRANSLATED FROM THE CURRENT PYTHON "
+              "SOURCE ON EVERY RUN by a fail-closed translator -- decode every valid hh / hhmm / hhmmss time and yyyymmdd "
+              "(years 100..9999) / yymmdd (2000+yy) date to its calendar fields, and the combined call gives that UTC datetime. "
+              "The hand model is tied to tools/time.py by running both on generated instants x offsets x representations x "
+              "containers under TZ=VRF+03:30 and, for the packed integers, on every integer 0..235959 and every day 1970..2100.")
+LEVEL_NOTE = ("Valid packed times are hh in 0..23 and hhmm / hhmmss with a NON-ZERO hour: theorem packed_time_forms_overlap proves "
+              "that no decoder of the bare integer can serve all three packings (1 is 01:00:00 as hh and 00:00:01 as hhmmss), so "
+              "00:mm[:ss] written as hhmm/hhmmss is necessarily read as a shorter form (e.g. 30 -> 30 h); recorded as a limitation "
+              "of the representation, not as a defect. datetime64 inputs are floored to whole seconds by the code "
+              "(np.datetime64(x,'s')) although its comment promises fractional seconds; DESIGN section 7 reads the property as "
+              "whole-second datetime64, so sub-second datetime64 inputs (also pandas Series / DataArrays of datetimes with "
+              "microseconds, which numpy turns into datetime64) are compared with the model's floor and only required to stay "
+              "within one second. Modelled but validated only by execution: CPython datetime arithmetic, fromisoformat, strftime, "
+              "fromtimestamp rounding (half-even on the float), numpy datetime64 casts, the float rounding inside "
+              "datetime.timestamp(), container unwrapping (.values). Not modelled: the strptime fallback (unreachable for ISO "
+              "strings on Python >= 3.11), ISO spellings outside the model's grammar (basic format, +HHMM, +HH, lower-case t, "
+              "no seconds) -- those are checked against the encoded instant on the implementation only. If the translator meets "
+              "a construct outside its grammar the run reports the proof as broken (fail-closed) even when the new code is "
+              "equivalent; the exhaustive packed-integer search still runs and names a failing input when there is one. "
+              "datetime_to_iso_time_string accepts scalars only (a list has no strftime): outside the property's clause.")
+TRUSTED = ["harness/translate_timeint.py (Python ast -> Gallina over Z, ~200 lines): // and % by a positive literal are Z.div / Z.modulo; "
+           "an `if` duplicates the rest of the block into both branches; re-assignment is a shadowing let"]
 TECHNIQUE = "Coq proof over Z (lia + vm_compute era tables) about a hand model and a source-translated model + exhaustive / generated correspondence under a non-UTC TZ"
 DESIGN_REF = "DESIGN.md section 5 C17, section 2.5"
